@@ -12,7 +12,7 @@ META = {
     "title": "The interpreter computes MLIR semantics for arithmetic and control flow",
     "category": "proof",
     "design_ref": "DESIGN.md §5 C15",
-    "lean_modules": ["XdslProofs.C15"],
+    "lean_modules": ["XdslProofs.C15", "XdslProofs.C15Casts", "XdslProofs.C15FloatLogic", "XdslProofs.C15Sem"],
     "extra_targets": ["XdslGen", "driver_gen"],
     "text": (
         "The integer kernels of xdsl/interpreters/arith.py and xdsl/utils/comparisons.py are translated "
@@ -22,14 +22,23 @@ META = {
         "The translation is cross-checked against the real interpreter on all operand pairs for i1..i4 and "
         "boundary/random values for i8..i64/index; an independent Python bit-pattern reference is the "
         "direct oracle (also for float ops and ops outside the translated fragment); multi-operation "
-        "programs are run on the real interpreter and on the Lean reference interpreter."
+        "programs are run on the real interpreter and on the Lean reference interpreter. "
+        "XdslProofs.C15Casts proves the translated cast kernels (_truncate, _sign_extend, run_indexcast) equal "
+        "BitVec truncate/signExtend for all positive widths; XdslProofs.C15FloatLogic proves that the branching "
+        "of minimumf/maximumf/cmpf (hand model XdslModel/ArithFloatLogic.lean over abstract IEEE primitives, "
+        "compared with the real functions on a float corpus) implements IEEE-754-2019 minimum/maximum and "
+        "MLIR's 16-entry cmpf table. "
+        "XdslProofs.C15Sem proves that this reference interpreter executes the same definitions: every "
+        "value Sem.intBin returns for one of the 11 translated ops is the bit pattern of the translated "
+        "kernel's result, and Sem.cmpi is the predicate table of the cmpi theorems."
     ),
     "technique": "Python→Lean translation of the kernels + Lean 4 proofs against BitVec semantics + differential correspondence",
     "level_note": (
         "Trusted: Lean kernel; the translator harness/translate/py2lean.py (whitelisted AST fragment, "
         "cross-checked by correspondence); the statement of MLIR semantics as BitVec operations; Python "
         "float arithmetic vs struct-rounded reference for f32/f64 (no theorem about IEEE operations "
-        "themselves); interpreter dispatch/registration machinery is exercised, not modelled. Known "
+        "themselves: C15FloatLogic takes isnan/==/</<=/copysign as parameters satisfying the laws FloatLaws, "
+        "and its model of the three float kernels is hand-written, tied to the source by correspondence only); interpreter dispatch/registration machinery is exercised, not modelled. Known "
         "findings (cannot be repaired without editing pinned tests) are listed in known_findings.json."
     ),
     "rule": (
@@ -42,7 +51,8 @@ META = {
     ),
     "trusted_base": [
         "translator harness/translate/py2lean.py + generate.py (regenerated and cross-checked every run)",
-        "reference semantics stated as BitVec operations in XdslProofs/C15.lean",
+        "reference semantics stated as BitVec operations in XdslProofs/C15.lean and C15Casts.lean",
+        "hand model XdslModel/ArithFloatLogic.lean of run_minimumf/run_maximumf/run_cmpf + the IEEE laws FloatLaws (assumed of the machine's binary64)",
     ],
     "budget": {"quick": 150, "thorough": 1200},
 }
@@ -435,6 +445,75 @@ def run_floats(ctx: core.Ctx, impl: Impl) -> None:
 
 
 # ---------------------------------------------------------------------------------------------
+# float decision logic: hand model XdslModel/ArithFloatLogic.lean (driver model arith_float_logic)
+# ---------------------------------------------------------------------------------------------
+
+LOGIC_CORPUS = [0x0, 0x8000000000000000, 0x3FF0000000000000, 0xBFF0000000000000, 0x7FF0000000000000,
+                0xFFF0000000000000, 0x7FF8000000000000, 0xFFF8000000000000, 0x7FF0000000000001, 0x1,
+                0x8000000000000001, 0x7FEFFFFFFFFFFFFF, 0xFFEFFFFFFFFFFFFF, 0x3FB99999A0000000, 0x4000000000000000]
+
+
+def run_float_logic(ctx: core.Ctx, impl: Impl) -> None:
+    """minimumf / maximumf / cmpf of the real interpreter vs. the hand model whose branching
+    XdslProofs.C15FloatLogic proves correct (NaN / both-zero / ordered arm and the result)."""
+    arith = impl.arith
+    bits = list(LOGIC_CORPUS)
+    if ctx.tier != "quick":
+        bits += [f64_bits(bits_f32(b)) for b in F32_CORPUS] + F64_CORPUS
+    for _ in range(4 if ctx.tier == "quick" else 30):
+        bits.append(ctx.rng.getrandbits(64))
+        bits.append(f64_bits(bits_f32(ctx.rng.getrandbits(32))))
+    bits = list(dict.fromkeys(bits))
+    vals = [(b, bits_f64(b)) for b in bits]
+    preds = ["false", "oeq", "ogt", "oge", "olt", "ole", "one", "ord", "ueq", "ugt", "uge", "ult", "ule", "une", "uno", "true"]
+
+    def is_f32(x: float) -> bool:
+        return math.isnan(x) or math.isinf(x) or round32(x) == x
+
+    ops: dict[Any, Any] = {}
+
+    def get(kind: str, ty: str, p: int = 0):
+        key = (kind, ty, p)
+        if key not in ops:
+            a, b = impl.val(ty, 0), impl.val(ty, 1)
+            ops[key] = arith.MinimumfOp(a, b) if kind == "minimumf" else arith.MaximumfOp(a, b) if kind == "maximumf" else arith.CmpfOp(a, b, preds[p])
+        return ops[key]
+
+    def show(st: str, got: Any, arm: str | None) -> str:
+        if st != "ok":
+            return f"raise {got}"
+        if isinstance(got, bool):
+            return "bool " + ("true" if got else "false")
+        if isinstance(got, float):
+            return (arm + " " if arm else "") + ("nan" if math.isnan(got) else f"f {f64_bits(got)}")
+        return f"other {got!r}"
+
+    lines: list[str] = []
+    obs: list[str] = []
+    for ba, a in vals:
+        for bb, b in vals:
+            ty = "f32" if is_f32(a) and is_f32(b) else "f64"
+            arm = "nan" if (math.isnan(a) or math.isnan(b)) else "zeros" if (a == 0 and b == 0) else "order"
+            for kind in ("minimumf", "maximumf"):
+                st, got = impl.run(get(kind, ty), (a, b))
+                lines.append(f"{kind} {ba} {bb}")
+                obs.append(show(st, got, arm))
+                ctx.ev(); ctx.count(f"floatlogic.{kind}")
+            for p in range(16):
+                st, got = impl.run(get("cmpf", ty, p), (a, b))
+                lines.append(f"cmpf {p} {ba} {bb}")
+                obs.append(show(st, bool(got) if st == "ok" and got in (0, 1, True, False) else got, None))
+                ctx.ev(); ctx.count("floatlogic.cmpf")
+            if arm != "order" or a == b:
+                ctx.nt(("fl", ba, bb))
+    outs = ctx.model("arith_float_logic", lines)
+    for l, o, e in zip(lines, outs, obs):
+        if o != e:
+            ctx.mismatch("correspondence:C15/arith_float_logic", {"model_line": l}, e, o)
+            break
+
+
+# ---------------------------------------------------------------------------------------------
 # generated-kernel correspondence
 # ---------------------------------------------------------------------------------------------
 
@@ -547,11 +626,23 @@ def run(ctx: core.Ctx) -> None:
         c15_programs.run_programs(ctx)
     except ImportError:
         pass
+    # last, so that the random stream seen by the generators above is the same as before this was added
+    try:
+        run_float_logic(ctx, impl)
+    except core.InfraError:
+        if any(f.kind == "broken-proof" for f in ctx.failures):
+            ctx.count("floatlogic.driver_unavailable")
+        else:
+            raise
 
 
 def replay(ctx: core.Ctx, body: dict) -> int:
     case = body["case"]
     impl = Impl()
+    if "model_line" in case:
+        print("hand model arith_float_logic:", case["model_line"], "->", ctx.model("arith_float_logic", [case["model_line"]]))
+        print("recorded implementation observation:", body.get("impl_observation"))
+        return 0
     if "call" in case:
         print("generated kernel:", case["call"], "->", run_generated([case["call"]]))
         print("recorded implementation observation:", body.get("impl_observation"))
